@@ -203,6 +203,8 @@ func cmdCheck(args []string) int {
 	only := fs.String("only", "", "run only this harness function")
 	noReplay := fs.Bool("noreplay", false, "skip native replays (debug)")
 	solver := fs.String("solver", "z3 -in", "solver command")
+	noDom := fs.Bool("nodomains", os.Getenv("SYMGO_NODOMAINS") != "", "disable byte-domain propagation (every decision goes to the solver)")
+	domAudit := fs.Int("domaudit", 50, "re-decide every n-th byte-domain verdict with the solver")
 	slow := fs.Float64("slowq", 0, "log solver queries slower than this many seconds")
 	fs.Parse(args)
 	if *slow > 0 {
@@ -256,6 +258,8 @@ func cmdCheck(args []string) int {
 			MapOrders:      tc.MapOrders,
 			VolatilePrefix: []string{modPath},
 			Params:         tc.Params,
+			ByteDomains:    !*noDom,
+			DomainAudit:    *domAudit,
 		}
 		opt := interp.Options{Workers: *workers, MaxPaths: tc.MaxPaths, WitnessEvery: 1, MaxWitnesses: defInt(tc.Witnesses, 12),
 			TimeLimit: time.Duration(tc.TimeLimitS) * time.Second, Progress: true}
@@ -267,9 +271,9 @@ func cmdCheck(args []string) int {
 			fmt.Fprintln(os.Stderr, "ERROR:", err)
 			return 2
 		}
-		fmt.Fprintf(os.Stderr, "[%s] %s: %d paths %v, %d decisions, %d steps, discharged %d (+%d trivial), queries %d (sat %d unsat %d unknown %d), solver %.1fs, wall %.1fs, complete=%v\n",
+		fmt.Fprintf(os.Stderr, "[%s] %s: %d paths %v, %d decisions, %d steps, discharged %d (+%d trivial), queries %d (sat %d unsat %d unknown %d), domain-decided %d (audited %d), solver %.1fs, wall %.1fs, complete=%v\n",
 			p.ID, h.Func, rep.Paths, rep.ByStatus, rep.Decisions, rep.Steps, rep.Discharged, rep.Trivial,
-			rep.Queries.Total, rep.Queries.Sat, rep.Queries.Unsat, rep.Queries.Unknown, rep.SolverTime.Seconds(), rep.Wall.Seconds(), rep.Complete)
+			rep.Queries.Total, rep.Queries.Sat, rep.Queries.Unsat, rep.Queries.Unknown, rep.DomainDecided, rep.DomainAudited, rep.SolverTime.Seconds(), rep.Wall.Seconds(), rep.Complete)
 		for _, f := range rep.Faults {
 			fmt.Fprintf(os.Stderr, "   FAULT %s\n", f)
 		}
@@ -481,13 +485,13 @@ type nativeResult struct {
 }
 
 type replayFile struct {
-	Property string             `json:"property"`
-	Pkg      string             `json:"pkg"`
-	Label    string             `json:"label"`
-	Kind     string             `json:"kind"`
-	Msg      string             `json:"msg,omitempty"`
-	Cases    []replayCase       `json:"cases"`
-	Decision []int64            `json:"decisions"`
+	Property string       `json:"property"`
+	Pkg      string       `json:"pkg"`
+	Label    string       `json:"label"`
+	Kind     string       `json:"kind"`
+	Msg      string       `json:"msg,omitempty"`
+	Cases    []replayCase `json:"cases"`
+	Decision []int64      `json:"decisions"`
 }
 
 func writeReplay(p *PropCfg, h HarnessCfg, c replayCase, v interp.Violation) string {
